@@ -504,6 +504,11 @@ def bounded_assembly(b, tier, seed):
                           bound=f"first {max_worlds} shipped non-BurnMan configurations, 2 scale factors, derivation chains of length 5 for 4 worlds (a hang is caught by the 900 s timeout of the native run)", result=res if res is not None else out, counted_as_proved=False))
     if res is not None and res.get("bad"):
         b.notes.append(dict(bounded_run_found=res["bad"]))
+        # a counterexample found by the bounded run is a genuine failing input (its refutations count, its passes never do)
+        for item in res["bad"][:5]:
+            ground(b, f"{FW}::build_world::bounded:assembly[{'|'.join(str(x) for x in item[:2])}]", f"{FW}::build_world",
+                   "BOUNDED native run: a shipped layered world (and its scaled / derived variants) is contiguous, has increasing slices, volumes summing up, non-decreasing enclosed mass and surface gravity G M/R^2",
+                   False, detail=str(item)[:300], refuted_model=dict(case=str(item)[:300]), bounded=True, native_confirmed=True)
 
 
 _REPLAY_GENERIC = r'''
